@@ -18,6 +18,8 @@ from simfile.sm import SMSimfile  # noqa: E402
 from simfile.ssc import SSCSimfile  # noqa: E402
 from simfile.timing import Beat, BeatValue, BeatValues, TimingData  # noqa: E402
 
+from simfile.timing.engine import SongTime  # noqa: E402
+
 LEVEL = "model_checking"
 THREE_DEC = re.compile(r"^-?\d+\.\d{3}$")
 HALF_TICK = Fraction(1, 96)
@@ -60,6 +62,18 @@ def check_tick(k):
 # -- 2. snapping -----------------------------------------------------------------
 
 
+class _Str(str):
+    pass
+
+
+class _Dec(Decimal):
+    pass
+
+
+class _Flt(float):
+    pass
+
+
 def check_snap(kind, arg):
     """kind in str/float/decimal; the result must be a tick multiple within 1/96 of the input."""
     out = []
@@ -73,6 +87,13 @@ def check_snap(kind, arg):
         else:
             exact = Fraction(arg)  # exact value of the float
             results = [("Beat(float)", Beat(arg))]
+        # instances of subclasses of the inexact types are inexact input all the same (the library's own SongTime is one)
+        if kind == "str":
+            results.append(("Beat(str subclass)", Beat(_Str(arg))))
+        elif kind == "decimal":
+            results.append(("Beat(Decimal subclass)", Beat(_Dec(arg))))
+        else:
+            results += [("Beat(SongTime)", Beat(SongTime(arg))), ("Beat(float subclass)", Beat(_Flt(arg)))]
         for label, r in results:
             fr = Fraction(r)
             if type(r) is not Beat:
